@@ -33,7 +33,7 @@ impl Prop for C06 {
         vec!["request_tx_rate_limit, update_rate_limmit and query_supported_interfaces end in unimplemented!() by construction and are not among the 17 implemented encoders".into()]
     }
     fn strategy(&self, _tier: Tier) -> BoxedStrategy<EncCase> {
-        (gen::enc_env(gen::addr7().boxed()), gen::req_call(false)).prop_map(|(env, call)| EncCase { env, call }).boxed()
+        gen::enc_pair(gen::addr7().boxed(), gen::req_call(false)).prop_map(|(env, call)| EncCase { env, call }).boxed()
     }
     fn budget(&self, tier: Tier) -> u64 {
         match tier {
